@@ -17,12 +17,43 @@ func liveProfile() vcase.Profile {
 		Outcomes:   []string{"success", "success", "error", "crash", "never", "never", "alt", "bad_output"},
 		DeployFail: true, DeployOdd: true, Foreach: true, Tags: true, Enabled: true, WaitFor: true,
 		EngineOuts: true, MaxOutputs: 4, MaxDelayMs: 15, WideFanIn: 35, NeverOK: true,
+		// classes that were excluded while K2 / K11 were open; references to closed.result etc. are
+		// generated too: cases of the open finding K14 are recognised and tamed (tameNever)
+		LiteralEnabled: true, StructFieldRefs: true, ClosedRefs: true,
 	}
 }
 
 // tameNever turns never-ending steps into finishing ones until the reference no longer says that
 // the only way to an output leads through a never-ending step (such a run legitimately never ends).
-func tameNever(c *vcase.Case) (m *vcase.Model, changed int) {
+//
+// k14 reports that the case was in the class of open finding K14 before taming: only stages that a
+// step stuck waiting for input reaches when the run closes it keep an output pending - strictly
+// no output can be produced any more while a never-ending step runs, yet the engine keeps waiting.
+// A replay file with extra.no_tame leaves such a case as it is (the finding's reproducer).
+func tameNever(c *vcase.Case) (m *vcase.Model, changed int, k14 bool) {
+	in := vcase.NormalizeInput(c.Main, c.InputDoc)
+	lenient := vcase.NewModel(c.Main, c.Subs, in, c.Script, nil)
+	strict := vcase.NewStrictModel(c.Main, c.Subs, in, c.Script, nil)
+	pendingIn := func(x *vcase.Model) bool {
+		for _, st := range x.OutStatus {
+			if st == vcase.Pending {
+				return true
+			}
+		}
+		return false
+	}
+	hasNever := false
+	for _, b := range c.Script.Steps {
+		if b.Outcome == "never" {
+			hasNever = true
+		}
+	}
+	if hasNever && pendingIn(lenient) && len(lenient.Producible()) == 0 && !pendingIn(strict) && len(strict.Producible()) == 0 {
+		k14 = true
+		if noTame, _ := c.Extra["no_tame"].(bool); noTame {
+			return strict, 0, true
+		}
+	}
 	for {
 		m = vcase.NewModel(c.Main, c.Subs, vcase.NormalizeInput(c.Main, c.InputDoc), c.Script, nil)
 		pending := false
@@ -32,7 +63,7 @@ func tameNever(c *vcase.Case) (m *vcase.Model, changed int) {
 			}
 		}
 		if !pending || len(m.Producible()) > 0 {
-			return m, changed
+			return m, changed, k14
 		}
 		done := false
 		for _, k := range vplug.SortedKeys(c.Script.Steps) {
@@ -46,7 +77,7 @@ func tameNever(c *vcase.Case) (m *vcase.Model, changed int) {
 			}
 		}
 		if !done {
-			return m, changed
+			return m, changed, k14
 		}
 	}
 }
@@ -60,9 +91,14 @@ func TestC01(t *testing.T) {
 			return c
 		},
 		func(st *Stats, c *vcase.Case) string {
-			m, tamed := tameNever(c)
+			m, tamed, k14 := tameNever(c)
 			if tamed > 0 {
 				st.Label("never-tamed")
+			}
+			if k14 && tamed > 0 {
+				st.mu.Lock()
+				st.Excluded["K14:output-pending-only-on-stages-reached-by-closing-a-stuck-step"]++
+				st.mu.Unlock()
 			}
 			ans := RunCase(c.Request("run"))
 			if ans.PrepareErr != "" {
